@@ -17,6 +17,7 @@ Messages are described by small JSON "specs" over fixed pools (so that every cas
    'u': None | ['fs', [rule idx..]] | ['vpn', [[route idx, label idx | None]..]] | ['sr', policy idx] | ['other']}
 """
 import copy
+import base64
 import json
 import struct
 
@@ -25,6 +26,7 @@ from lib.base import setup_impl_path, with_budget, jdump
 setup_impl_path()
 
 import impl_session as S  # noqa: E402
+import impl_rest  # noqa: E402,F401  (loads yabgp.api.app before the first Sim() parses the configuration)
 from gen import session_gen as SG  # noqa: E402
 from oslo_config import cfg  # noqa: E402
 from yabgp.message.update import Update  # noqa: E402
@@ -76,6 +78,16 @@ def canon(v):
             return {'bytes': bytes(x).hex()}
         return x
     return json.dumps(c(v), sort_keys=True, separators=(',', ':'))
+
+
+_CLIENT = []
+
+
+def _client():
+    """Flask test client on the real application (yabgp.api.app)"""
+    if not _CLIENT:
+        _CLIENT.append(impl_rest.load_app().test_client())
+    return _CLIENT[0]
 
 
 class Intern(object):
@@ -314,6 +326,23 @@ class RealRib(object):
             if constructible:
                 return api_utils.send_update('10.0.0.2', attr, nlri, withdraw)
             return {'status': True}
+        # through the real REST view whenever the request is one the view sends (so that what the view itself does -
+        # which calls it makes, in which order, under which conditions - is part of what is compared)
+        via_view = constructible and ((attr and nlri) or withdraw or 14 in attr or 15 in attr)
+        if via_view:
+            try:
+                body = json.dumps({'attr': {str(k): v for k, v in attr.items()}, 'nlri': nlri, 'withdraw': withdraw})
+            except (TypeError, ValueError):
+                via_view = False
+        if via_view:
+            def go():   # noqa: F811
+                client = _client()          # (importing the application registers the [rest] options)
+                tok = base64.b64encode(('%s:%s' % (cfg.CONF.rest.username, cfg.CONF.rest.password)).encode('utf-8')).decode('ascii')
+                resp = client.post('/v1/peer/10.0.0.2/send/update', data=body, content_type='application/json',
+                                      headers={'Authorization': 'Basic ' + tok})
+                if resp.status_code != 200:
+                    raise RuntimeError('send/update answered %d' % resp.status_code)
+                return resp.get_json()
         st, v = with_budget(S.EVENT_BUDGET, go)
         self.sim.world.flush_threads()
         self.sim.world.take_outs()
